@@ -183,6 +183,25 @@ def bind_model(res, rd, name, model, sample, module, cfg, keep=("A", "B", "mode"
         print("MODEL-BINDING-DIVERGED model=%s executions=%d diverged>=%d (evidence only, not a violation)" % (model, len(items), len(v["fails"])))
 
 
+def bind_events(res, rd, name, model, sample, module, timeout_ms=3000):
+    """binding of a functional Layer-2 model: `sample` is driven, every recorded event is judged independently by `module`
+    (the logged internal artefact must be the model's, and must mean what the model says); evidence only (model_binding +
+    MODEL-BINDING-DIVERGED line) - the API-level contract is judged elsewhere in the same check"""
+    cf = os.path.join(rd, name + ".cases.ndjson")
+    vlib.write_ndjson(cf, sample)
+    shards = vlib.drive(cf, os.path.join(rd, name + ".ev"), timeout_ms=timeout_ms)
+    v = vlib.tlc_validate(module, shards)
+    res.add_validation(v)
+    mb = res.extra.setdefault("model_binding", {})
+    mb[model] = {"executions": v["events"], "diverged": len(v["fails"]),
+                 "first_divergence": ({"reasons": v["fails"][0][2], "case": {k: v["fails"][0][3].get(k) for k in ("id", "A", "B", "dir", "n")}}
+                                      if v["fails"] else None)}
+    if v["fails"]:
+        print("MODEL-BINDING-DIVERGED model=%s executions=%d diverged=%d reasons=%s (evidence only, not a violation)" % (
+            model, v["events"], len(v["fails"]), ",".join(sorted(set(r for f in v["fails"] for r in f[2])))))
+    return v
+
+
 def binding_incldown(res, rd, tier, pool, rng):
     """semantic binding of the downward algorithms' caches (InclDown's invariants on real runs): every sub-call answer recorded
     through the guarded hook is judged by TLC.  A wrong sub-answer is evidence only (MODEL-BINDING-DIVERGED) - but it is
@@ -411,7 +430,7 @@ def nontrivial_trim(c):
     return vlib.ta_nonempty(a) or len(vlib.ta_states(a)) > len(vlib.ta_productive(a))
 
 
-def single_cases(tier, rng, op, frac_quick, extra=None, nrand_quick=3000, nrand_thorough=20000, nums=("id", "rev", "sparse", "perm"), bigger=False):
+def single_cases(tier, rng, op, frac_quick, extra=None, nrand_quick=3000, nrand_thorough=20000, nums=("id", "rev", "sparse", "perm"), bigger=False, wide=True):
     """B1' (<=3 states, <=3 rules over a,b,g,f; TLC-enumerated) + seeded random automata, each under a presentation"""
     cases = []
     frac = 1.0 if tier == "thorough" else frac_quick
@@ -438,6 +457,17 @@ def single_cases(tier, rng, op, frac_quick, extra=None, nrand_quick=3000, nrand_
             extra(d, rng)
         maybe_split(d, rng)
         cases.append(d)
+    if wide:
+        # the WIDE family: ranks swept across size thresholds (see gen.wide_ta)
+        ranks = gen.WIDE_THOROUGH if tier == "thorough" else gen.WIDE_QUICK
+        for k in ranks:
+            for j in range(3 if tier == "thorough" or k > 12 else 2):
+                d = {"id": ["wide", k, j], "op": op, "src": "wide"}
+                d["A"] = gen.present(gen.wide_ta(rng, k), rng, rng.choice([x for x in nums if x != "huge"]))
+                d["syms"] = gen.syms_of(d["A"])
+                if extra:
+                    extra(d, rng)
+                cases.append(d)
     return cases
 
 
@@ -528,6 +558,21 @@ def check_C04(tier, seed, res, replay=None):
     pick = [c for c in cases if nt(c) and "split" not in c and c.get("op") == "sim" and c["A"]["rules"]]
     rng.shuffle(pick)
     cli_arm.judge(res, rd, "sim", cli_arm.sim_events(pick[:8000 if tier == "thorough" else 1500], rd), "TraceTA.tla")
+    # binding of the Layer-2 model SimEnc: the LTS the real TranslateDownward / TranslateUpward build (read back through
+    # ExplicitLTS::post), the initial partition / relation and the engine's answer on it, judged by TraceSimEnc
+    pool = [c for c in cases if c.get("op") == "sim" and c["A"]["rules"] and c.get("src") != "wide"]
+    rng.shuffle(pool)
+    sample = []
+    for c in pool[:15000 if tier == "thorough" else 3000]:
+        for d in c["dirs"]:
+            sample.append({"id": c["id"], "op": "simenc", "dir": d, "A": c["A"], "n": c["n"]})
+    bind_events(res, rd, "simenc", "SimEnc", sample, "TraceSimEnc.tla")
+    # Layer 2: both encodings for every automaton of the bound under every numbering
+    model_with_mutants(res, "SimEnc.tla", "SimEnc.cfg", [], "SimEnc")
+    model_with_mutants(res, "SimEnc.tla", "SimEncR3.cfg", [], "SimEnc")
+    if tier == "thorough":
+        model_with_mutants(res, "SimEnc.tla", "SimEnc3.cfg",
+                           ["DoubleIdx", "EnvNoParent", "EnvNoIndex", "OneBlock", "SkipLeaf", "SharedPos"], "SimEnc")
 
 
 # ---------------------------------------------------------------------------------------- C05
@@ -577,7 +622,7 @@ def check_C06(tier, seed, res, replay=None):
     if replay:
         return do_replay(res, rd, replay)
     rng = random.Random(seed)
-    cases = single_cases(tier, rng, "compl", 0.05, extra=compl_extra, nrand_quick=1500, nrand_thorough=8000)
+    cases = single_cases(tier, rng, "compl", 0.05, extra=compl_extra, nrand_quick=1500, nrand_thorough=8000, wide=False)
     for k in load_killers("compl.ndjson"):
         cases.append(dict(k, op="compl"))
     nt = lambda c: vlib.ta_nonempty(c["A"])
